@@ -54,7 +54,13 @@ def build2(m):
     m.add(Contract(MOD + ':MarkdownRenderer.prefix_lines#lines',
                    [('self', MR), ('lines', TList(STR)), ('first_line_prefix', STR), ('following_line_prefix', TOpt(STR), NONE_VAL)],
                    returns=TList(STR), trusted=True, pure=True,
-                   note='prefix_lines as a list transformer; its own body is checked in prefix_lines#width'))
+                   # the list view restates, item by item, the yield asserts proved on the real body (prefix_lines#width)
+                   ensures=['len(result) == len(lines)',
+                            "forall(lambda i: result[i] == '' or result[i] == (first_line_prefix if i == 0 else "
+                            "(some(following_line_prefix) if not is_none(following_line_prefix) and some(following_line_prefix) != '' "
+                            "else first_line_prefix)) + lines[i], 0, len(result))"],
+                   note='prefix_lines as a list transformer (generator consumed to exhaustion, A11); the item facts are the '
+                        'yield asserts proved on its real body in prefix_lines#width'))
     L = 'old(max_line_length)'
     A = 'arg_max_line_length'
     m.add(Contract(MOD + ':MarkdownRenderer.render_quote#budget', [('self', MR), ('token', QT), ('max_line_length', TOpt(INT))],
@@ -227,3 +233,25 @@ def build7(m):
     m.add(Contract(MOD + ':MarkdownRenderer.render_thematic_break', [('self', MR), ('token', TB), ('max_line_length', TOpt(INT))],
                    returns=TList(STR),
                    ensures=[('len(result) == 1 and result[0] == token.line', ['C09', 'C10'])], prop=['C09', 'C10']))
+
+
+def build8(m):
+    """Fenced code blocks are written back from the retained opening fence (C09) and their content
+    lines are only prefixed, never re-broken (C10)."""
+    MR = TRef('MarkdownRendererObj')
+    CFT = TRef('CodeFenceTok')
+    m.classes['CodeFenceTok'] = {'indentation': INT, 'delimiter': STR, 'info_string': STR, 'content': STR}
+    m.add(Contract(MOD + ':MarkdownRenderer.render_fenced_code_block', [('self', MR), ('token', CFT), ('max_line_length', TOpt(INT))],
+                   returns=None, yield_type=STR,
+                   requires=['token.indentation >= 0'],
+                   ghost_init={'g_n': (INT, '0')},
+                   yield_asserts=[
+                       # every line the method writes itself is indentation + fence (+ info string on the opening line)
+                       ("yielded == ' ' * token.indentation + token.delimiter + token.info_string or "
+                        "yielded == ' ' * token.indentation + token.delimiter or "
+                        # ... and every content line is the indentation followed by the line (or empty when blank)
+                        "yielded == '' or yielded.startswith(' ' * token.indentation)", ['C09', 'C10'])],
+                   call_asserts={MOD + ':MarkdownRenderer.prefix_lines#lines': [
+                       # the content lines get the fence's indentation as their prefix - nothing else is done to them
+                       ("arg_first_line_prefix == ' ' * token.indentation and is_none(arg_following_line_prefix)", ['C09', 'C10'])]},
+                   prop=['C09', 'C10']))
